@@ -47,8 +47,14 @@ ApplyDelta(doc, d) ==
                                   doc |-> [keys |-> IF Has(doc.keys, d.i) THEN doc.keys ELSE Append(doc.keys, d.i),
                                            mem |-> doc.mem \ {1}]]
                             ELSE [ok |-> FALSE, doc |-> doc]
+      \* two patches: remove member 1, then a replace patch.  The list applies only if EVERY patch applies: that the
+      \* replace patch would discard whatever the first patch did does not make the first patch optional
+      [] d.k = "remmem_replace" ->
+                            IF 1 \in doc.mem
+                            THEN [ok |-> TRUE, doc |-> [keys |-> <<d.i>>, mem |-> {}]]
+                            ELSE [ok |-> FALSE, doc |-> doc]
 
-DeltaKinds == {"addkey", "remkey", "replace", "addmem", "remmem", "addkey_remmem"}
+DeltaKinds == {"addkey", "remkey", "replace", "addmem", "remmem", "addkey_remmem", "remmem_replace"}
 
 -----------------------------------------------------------------------------
 (* Anchoring window (C09).                                                 *)
@@ -86,7 +92,7 @@ DvBad == {"nodelta", "nopatches", "disabled", "invalidpatch", "noaction", "upd_m
 
 Deltas == [k : {"addkey", "remkey", "replace"}, i : KeyIds]
             \cup [k : {"addmem", "remmem"}, i : Mems]
-            \cup [k : {"addkey_remmem"}, i : KeyIds]
+            \cup [k : {"addkey_remmem", "remmem_replace"}, i : KeyIds]
 
 DefDelta == [k |-> "addkey", i |-> CHOOSE i \in KeyIds : \A j \in KeyIds : i <= j]
 
